@@ -28,5 +28,11 @@ def replay(path, repo):
         print('no failing input was found for this obligation; verifier output follows')
         print(rec.get('verifier_output'))
         return 1
+    if w.get('kind') == 'kani-cex':
+        from . import kani
+        rep, out = kani.replay_cex(repo, w['package'], w['harness'], [w['input']])
+        print(out[-1500:])
+        print('kani counterexample %s on the real code: %s' % (w['input'], 'REPRODUCED (harness assertion fails)' if rep else 'not reproduced'))
+        return 1 if rep else 0
     from . import replaytool
     return replaytool.replay(rec, repo)
